@@ -67,6 +67,12 @@ def oracle_pairwise(case, stats):
             continue
         for q in ("x", "r", "rtr", "allqxx", "allqbb"):
             tol = 2e-8 * kappa * scale[q] * (kappa if q in ("allqxx", "allqbb") else 1.0)
+            if q == "rtr":
+                # two sums of squares of residuals that differ by the rounding of x (as in C01; not relative to b'Pb, which
+                # would let a formula that cancels large absolute terms pass)
+                nP = float(np.linalg.norm(P, 2))
+                dv = 2e-11 * kappa * (nA * float(np.linalg.norm(R.x)) + float(np.linalg.norm(b)) + 1.0) * np.sqrt(max(R.m, 1))
+                tol = 2 * np.sqrt(max(R.rtr, 0.0) * nP) * dv + nP * dv * dv + 2e-12 * (R.rtr + 1.0)
             e = float(np.max(np.abs(vals[a1][q] - vals[a2][q]))) if vals[a1][q].size else 0.0
             stats.ratio("pair.%s" % q, e / tol)
             if e > tol:
